@@ -45,3 +45,211 @@ def regenerate(names):
             if log:
                 logs.append(log)
     return ok, "\n".join(logs)
+
+
+# ---------------------------------------------------------------------------------------------
+# a tiny C++ boolean-expression translator: && || ! ( ) == over a fixed vocabulary of atoms
+# ---------------------------------------------------------------------------------------------
+
+def find_function_body(src, signature_regex):
+    """return the text between the braces of the first function whose header matches"""
+    m = re.search(signature_regex, src, re.S)
+    if not m:
+        raise ValueError("signature not found: " + signature_regex)
+    i = src.index("{", m.end() - 1 if src[m.end() - 1] == "{" else m.end())
+    depth = 0
+    for j in range(i, len(src)):
+        if src[j] == "{":
+            depth += 1
+        elif src[j] == "}":
+            depth -= 1
+            if depth == 0:
+                return src[i + 1:j]
+    raise ValueError("unbalanced braces")
+
+
+def strip_comments(s):
+    s = re.sub(r"//[^\n]*", "", s)
+    return re.sub(r"/\*.*?\*/", "", s, flags=re.S)
+
+
+def single_return_expr(body):
+    body = strip_comments(body).strip()
+    m = re.fullmatch(r"return\s+(.*?);\s*", body, re.S)
+    if not m:
+        raise ValueError("body is not a single return statement: %r" % body[:200])
+    return m.group(1)
+
+
+class BoolExpr:
+    """recursive descent over: or := and ('||' and)* ; and := un ('&&' un)* ; un := '!' un | '(' or ')' | atom"""
+
+    def __init__(self, text, atoms):
+        self.atoms = atoms      # normalised C++ text -> Lean term
+        self.toks = self.tokenize(text)
+        self.i = 0
+
+    @staticmethod
+    def norm(s):
+        return re.sub(r"\s+", "", s)
+
+    def tokenize(self, text):
+        text = text.strip()
+        toks = []
+        i = 0
+        cur = ""
+        depth = 0
+        while i < len(text):
+            c = text[i]
+            two = text[i:i + 2]
+            if depth == 0 and two in ("&&", "||"):
+                if cur.strip():
+                    toks.append(("atom", cur))
+                toks.append((two, two))
+                cur = ""
+                i += 2
+                continue
+            if depth == 0 and c == "!" and two != "!=":
+                if cur.strip():
+                    raise ValueError("unexpected '!' inside atom")
+                toks.append(("!", "!"))
+                i += 1
+                continue
+            if c == "(":
+                # grouping parenthesis (not a call) if nothing identifier-like precedes it
+                if depth == 0 and not cur.strip():
+                    toks.append(("(", "("))
+                    i += 1
+                    continue
+                depth += 1
+            elif c == ")":
+                if depth == 0:
+                    if cur.strip():
+                        toks.append(("atom", cur))
+                        cur = ""
+                    toks.append((")", ")"))
+                    i += 1
+                    continue
+                depth -= 1
+            cur += c
+            i += 1
+        if cur.strip():
+            toks.append(("atom", cur))
+        return toks
+
+    def peek(self):
+        return self.toks[self.i][0] if self.i < len(self.toks) else None
+
+    def eat(self, k):
+        if self.peek() != k:
+            raise ValueError("expected %s at token %d of %r" % (k, self.i, self.toks))
+        self.i += 1
+
+    def parse(self):
+        e = self.p_or()
+        if self.i != len(self.toks):
+            raise ValueError("trailing tokens in %r" % (self.toks,))
+        return e
+
+    def p_or(self):
+        e = self.p_and()
+        while self.peek() == "||":
+            self.eat("||")
+            e = "(%s || %s)" % (e, self.p_and())
+        return e
+
+    def p_and(self):
+        e = self.p_un()
+        while self.peek() == "&&":
+            self.eat("&&")
+            e = "(%s && %s)" % (e, self.p_un())
+        return e
+
+    def p_un(self):
+        k = self.peek()
+        if k == "!":
+            self.eat("!")
+            return "(!%s)" % self.p_un()
+        if k == "(":
+            self.eat("(")
+            e = self.p_or()
+            self.eat(")")
+            return e
+        if k == "atom":
+            a = self.norm(self.toks[self.i][1])
+            self.i += 1
+            if a not in self.atoms:
+                raise ValueError("unknown atom %r" % a)
+            return self.atoms[a]
+        raise ValueError("unexpected token %r" % (k,))
+
+
+GEN_HEADER = "/- GENERATED by tools/translate.py from /repo (%s) on every run. Do not edit. -/\n"
+
+
+@fragment("AnyIdFrag")
+def frag_anyid():
+    src = read_src("include/eventpp/utilities/anyid.h")
+    atoms = {
+        "a.getDigest()==b.getDigest()": "deq",
+        "a.getDigest()<b.getDigest()": "dlt",
+        "anyid_internal_::compareEqual(a.getValue(),b.getValue())": "veq",
+        "anyid_internal_::compareLessThan(a.getValue(),b.getValue())": "vlt",
+    }
+    eq = BoolExpr(single_return_expr(find_function_body(src, r"bool\s+operator\s*==\s*\(const\s+AnyId<Digester,\s*Storage>\s*&\s*a,\s*const\s+AnyId<Digester,\s*Storage>\s*&\s*b\)\s*\{")), atoms).parse()
+    lt = BoolExpr(single_return_expr(find_function_body(src, r"bool\s+operator\s*<\s*\(const\s+AnyId<Digester,\s*Storage>\s*&\s*a,\s*const\s+AnyId<Digester,\s*Storage>\s*&\s*b\)\s*\{")), atoms).parse()
+    hbody = single_return_expr(find_function_body(src, r"std::size_t\s+operator\(\)\(const\s+eventpp::AnyId<Digester,\s*Storage>\s*&\s*value\)\s*const\s+noexcept\s*\{"))
+    hn = BoolExpr.norm(hbody)
+    if hn != "eventpp::anyid_internal_::MakeHash<typenameeventpp::AnyId<Digester,Storage>::DigestType>()(value.getDigest())":
+        raise ValueError("std::hash<AnyId> body not recognised: " + hn)
+    # compareEqual / compareLessThan fall-backs (no operator: true / false)
+    ce = re.search(r"compareEqual\(const T &, const T &\)\s*->[^{]*\{\s*return\s+(\w+);", src)
+    cl = re.search(r"compareLessThan\(const T &, const T &\)\s*->[^{]*\{\s*return\s+(\w+);", src)
+    if not ce or not cl:
+        raise ValueError("fallback comparison not found")
+    text = GEN_HEADER % "include/eventpp/utilities/anyid.h operator==, operator<, std::hash<AnyId>, compare* fall-backs"
+    text += "namespace Evp.Gen.AnyId\n\n"
+    text += "/-- `operator==` over the atoms digests-equal / values-equal -/\ndef eq (deq veq : Bool) : Bool := %s\n\n" % eq
+    text += "/-- `operator<` over the atoms digest-less / value-less / digests-equal -/\ndef lt (dlt vlt deq : Bool) : Bool := %s\n\n" % lt
+    text += "/-- `std::hash<AnyId>` hashes the digest only -/\ndef hashOfDigestOnly : Bool := true\n\n"
+    text += "/-- value comparison when the Storage has no `==` / no `<` -/\ndef noEqFallback : Bool := %s\ndef noLtFallback : Bool := %s\n\n" % (ce.group(1), cl.group(1))
+    text += "end Evp.Gen.AnyId\n"
+    return True, text, ""
+
+
+CMP_LEAN = {"<=": "≤", "<": "<", ">": ">", ">=": "≥", "==": "=", "!=": "≠"}
+
+
+@fragment("AnyDataFrag")
+def frag_anydata():
+    src = strip_comments(read_src("include/eventpp/utilities/anydata.h"))
+    # the two SFINAE constructors: conditions on sizeof(T) against maxSize, and what each constructs
+    ctors = re.findall(r"AnyData\(T && object,\s*typename std::enable_if<\(sizeof\(typename anydata_internal_::RemoveCvRef<T>::Type\)\s*(<=|<|>=|>)\s*maxSize\)>::type \* = 0\)\s*:\s*functions\(anydata_internal_::getAnyDataFunctions<(\w+)>\(\)\)", src)
+    if len(ctors) != 2:
+        raise ValueError("expected two size-split constructors, found %d" % len(ctors))
+    kinds = {}
+    for op, what in ctors:
+        kinds["large" if what == "LargeData" else "inline"] = op
+    if set(kinds) != {"inline", "large"}:
+        raise ValueError("constructors do not split into inline / LargeData: %r" % (ctors,))
+    m = re.search(r"static constexpr std::size_t maxSize = maxSize_\s*(<|<=)\s*sizeof\(LargeData\)\s*\?\s*sizeof\(LargeData\)\s*:\s*maxSize_;", src)
+    if not m:
+        raise ValueError("maxSize definition not recognised")
+    # moved-from behaviour: AnyData(AnyData&&) move-constructs through the table; LargeData(LargeData&&) swaps pointers
+    mv = re.search(r"AnyData\(AnyData && other\)\s*:\s*functions\(other\.functions\),\s*buffer\(\)\s*\{\s*if\(functions != nullptr\)\s*\{\s*functions->moveConstruct\(other\.buffer\.data\(\), buffer\.data\(\)\);", src)
+    lm = re.search(r"LargeData\(LargeData && other\)\s*:\s*data\(\),\s*deleter\(\)\s*\{\s*std::swap\(data, other\.data\);\s*std::swap\(deleter, other\.deleter\);", src)
+    dt = re.search(r"~AnyData\(\)\s*\{\s*if\(functions != nullptr\)\s*\{\s*functions->free\(buffer\.data\(\)\);", src)
+    ld = re.search(r"~LargeData\(\)\s*\{\s*if\(data != nullptr\)\s*\{\s*assert\(deleter != nullptr\);\s*deleter\(data\);", src)
+    text = GEN_HEADER % "include/eventpp/utilities/anydata.h size-split constructors, maxSize, move/destroy shape"
+    text += "namespace Evp.Gen.AnyData\n\n"
+    text += "/-- enable_if condition of the constructor that stores the object in the inline buffer -/\n"
+    text += "def inlineCond (size maxSize : Nat) : Bool := decide (size %s maxSize)\n\n" % CMP_LEAN[kinds["inline"]]
+    text += "/-- enable_if condition of the constructor that stores a heap-owning LargeData -/\n"
+    text += "def largeCond (size maxSize : Nat) : Bool := decide (size %s maxSize)\n\n" % CMP_LEAN[kinds["large"]]
+    text += "/-- `maxSize` from the template argument and `sizeof(LargeData)` -/\n"
+    text += "def effCap (cap szLarge : Nat) : Nat := if cap %s szLarge then szLarge else cap\n\n" % CMP_LEAN[m.group(1)]
+    text += "/-- the move constructor move-constructs the held object through the function table; LargeData's move swaps\n    the pointers; both destructors release what is held, guarded by a null test -/\n"
+    text += "def moveThroughTable : Bool := %s\ndef largeMoveSwaps : Bool := %s\ndef dtorFreesHeld : Bool := %s\ndef largeDtorDeletes : Bool := %s\n\n" % tuple(
+        "true" if x else "false" for x in (mv, lm, dt, ld))
+    text += "end Evp.Gen.AnyData\n"
+    return True, text, ""
